@@ -449,6 +449,38 @@ func (p *Program) relocate(spec string, fa FrozenAnchor) *types.Func {
 			found = append(found, fn)
 		}
 	}
+	if len(found) > 1 {
+		// several new callees (more than one helper renamed at once): prefer the exact number of
+		// parameters, then the one whose own unexported callees resemble the vanished anchor's most
+		var exact []*types.Func
+		for _, fn := range found {
+			sig := fn.Type().(*types.Signature)
+			np := sig.Params().Len()
+			if sig.Recv() != nil {
+				np++
+			}
+			if np == fa.NParams {
+				exact = append(exact, fn)
+			}
+		}
+		if len(exact) > 0 {
+			found = exact
+		}
+		if len(found) > 1 {
+			best, bestScore, tie := (*types.Func)(nil), -1.0, false
+			for _, fn := range found {
+				sc := p.ownSimilarity(fn, own)
+				if sc > bestScore {
+					best, bestScore, tie = fn, sc, false
+				} else if sc == bestScore {
+					tie = true
+				}
+			}
+			if !tie && best != nil && bestScore > 0 {
+				found = []*types.Func{best}
+			}
+		}
+	}
 	newOther, newOwn, inlined := 0, 0, false
 	for fn := range cand {
 		if own[fn.Name()] {
@@ -476,6 +508,36 @@ func (p *Program) relocate(spec string, fa FrozenAnchor) *types.Func {
 		funcAlias[found[0]] = nm[strings.LastIndex(nm, ".")+1:]
 	}
 	return found[0]
+}
+
+// ownSimilarity is the Jaccard similarity between the unexported same-package callees of fn and a
+// frozen set of callee names.
+func (p *Program) ownSimilarity(fn *types.Func, own map[string]bool) float64 {
+	src := p.Src(fn)
+	if src == nil || src.Decl.Body == nil {
+		return 0
+	}
+	mine := map[string]bool{}
+	ast.Inspect(src.Decl.Body, func(m ast.Node) bool {
+		if ce, ok := m.(*ast.CallExpr); ok {
+			if g := Callee(src.Pkg.TypesInfo, ce); g != nil && !g.Exported() && g.Pkg() == src.Pkg.Types && g != fn {
+				mine[aliasName(g)] = true
+			}
+		}
+		return true
+	})
+	inter, union := 0, len(own)
+	for n := range mine {
+		if own[n] {
+			inter++
+		} else {
+			union++
+		}
+	}
+	if union == 0 {
+		return 0
+	}
+	return float64(inter) / float64(union)
 }
 
 // funcAlias gives a relocated (renamed) function the simple name it had on the pinned tree:
